@@ -717,6 +717,16 @@ func (st *Runtime) evalPrimaryExpressionGroup(node Expression) reflect.Value {
 			length = baseExpression.Len()
 		}
 
+		switch kind := baseExpression.Kind(); {
+		case kind == reflect.String, kind == reflect.Slice:
+		case kind == reflect.Array && baseExpression.CanAddr():
+		default:
+			node.Base.errorf("cannot slice value of type %s", getTypeString(baseExpression))
+		}
+		if max := baseExpression.Len(); index < 0 || length < index || length > max {
+			node.errorf("slice bounds out of range [%d:%d] with length %d", index, length, max)
+		}
+
 		return baseExpression.Slice(index, length)
 	}
 	return st.evalBaseExpressionGroup(node)
